@@ -1467,7 +1467,26 @@ def str_method(recv, name, args, kw):
         if any(sym(a) for a in args):
             return getattr(SStr.of(recv), name)(*args, **kw)
     if name == 'format':
-        raise Unsupported('str.format with symbolic')
+        import string
+        out = []
+        auto = 0
+        for lit, field, spec, conv in string.Formatter().parse(recv):
+            out.extend(ord(c) for c in lit)
+            if field is None:
+                continue
+            if conv not in (None, 's') or '{' in (spec or ''):
+                raise Unsupported('str.format conversion / nested spec')
+            if field == '':
+                v = args[auto]
+                auto += 1
+            elif field.isdigit():
+                v = args[int(field)]
+            elif field in kw:
+                v = kw[field]
+            else:
+                raise Unsupported('str.format field %r' % field)
+            out.extend(SStr.of(format_value(v, spec or '')).chars)
+        return mk(out)
     raise Unsupported('str.%s with symbolic args' % name)
 
 
@@ -2301,6 +2320,15 @@ class RT:
         return fa() if fork(cz) else fb()
 
     @staticmethod
+    def fstring(parts):
+        if not deep_sym(parts):
+            return ''.join(p if isinstance(p, str) else format(p[0], p[1]) for p in parts)
+        out = []
+        for p in parts:
+            out.extend(SStr.of(p if isinstance(p, str) else format_value(p[0], p[1])).chars)
+        return mk(out)
+
+    @staticmethod
     def iop(op, l, r):
         if isinstance(l, list) and op == 'Add':
             l += r
@@ -3018,6 +3046,40 @@ class LazyBigInt:
         return self.dec.to_int()
 
 
+def format_value(v, spec):
+    """format(v, spec) for the specs that occur in identifier code: '', 's', 'd', '0Nd', 'Nd', ',' and ',d'"""
+    v = force(v)
+    if not isinstance(v, SYM_TYPES):
+        return format(v, spec)
+    if isinstance(v, SStr):
+        if spec in ('', 's'):
+            return v
+        raise Unsupported('format spec %r for str' % spec)
+    if isinstance(v, SBool) and spec == '':
+        return m_str(v)
+    if isinstance(v, (SInt, SBool)):
+        v = SInt(zint(v))
+        m = real_re.fullmatch(r'(0?)(\d*)(,?)(d?)', spec)
+        if not m:
+            raise Unsupported('format spec %r for int' % spec)
+        digits = SStr.of(render_int(v))
+        neg = bool(digits.chars) and digits.chars[0] == 45
+        body = digits.chars[1:] if neg else digits.chars
+        if m.group(3):
+            grouped = []
+            for k, c in enumerate(body):
+                if k and (len(body) - k) % 3 == 0:
+                    grouped.append(44)
+                grouped.append(c)
+            body = grouped
+        w = int(m.group(2) or 0)
+        pad = max(0, w - len(body) - (1 if neg else 0))
+        if m.group(1):
+            return mk(([45] if neg else []) + [48] * pad + body)
+        return mk([32] * pad + ([45] if neg else []) + body)
+    raise Unsupported('format of %s' % type(v).__name__)
+
+
 def fmt_percent(fmt, arg):
     # support simple formats: %s, %d, %02d, %(name)s; single arg, tuple or dict
     if isinstance(arg, dict) and '%(' in fmt:
@@ -3275,6 +3337,26 @@ class Tx(ast.NodeTransformer):
             else:
                 out.append(ast.Import(names=[a]))
         return out
+
+    def visit_JoinedStr(self, node):
+        # only f-strings with constant format specs are rewritten; the format spec itself must not be visited first
+        for v in node.values:
+            if isinstance(v, ast.FormattedValue):
+                spec = v.format_spec
+                if v.conversion not in (-1, 115) or (spec is not None and not (isinstance(spec, ast.JoinedStr) and all(isinstance(x, ast.Constant) for x in spec.values))):
+                    for w in node.values:
+                        if isinstance(w, ast.FormattedValue):
+                            w.value = self.visit(w.value)
+                    return node
+        parts = []
+        for v in node.values:
+            if isinstance(v, ast.Constant):
+                parts.append(v)
+            else:
+                spec = v.format_spec
+                spec_s = ''.join(x.value for x in spec.values) if spec is not None else ''
+                parts.append(ast.Tuple(elts=[self.visit(v.value), ast.Constant(spec_s)], ctx=ast.Load()))
+        return ast.Call(func=self._rt('fstring'), args=[ast.List(elts=parts, ctx=ast.Load())], keywords=[])
 
     def visit_Assign(self, node):
         self.generic_visit(node)
